@@ -140,7 +140,8 @@ fn kind_of(k: usize) -> Kind {
         12 => Kind::DespiteSized(u64::MAX, true),
         13 => Kind::DespiteChunkedHeaderFirst,
         14 => Kind::DefaultChunkedExtraHeadWrites,
-        _ => Kind::SizedExtraHeadWrites(u64::MAX),
+        15 => Kind::SizedExtraHeadWrites(u64::MAX),
+        _ => Kind::TeOtherCaseAndCl(3, true),
     }
 }
 
@@ -161,6 +162,36 @@ fn check_sized_small(total: u64, sent: usize, n: usize, st: &mut Stats) -> Resul
         return Err(format!("length-delimited body (content-length {}, {} sent): calculate_max_input({}) = {}", total, sent, n, m));
     }
     st.class("sized_small_remaining");
+    Ok(())
+}
+
+/// A length-delimited body after a direct-write report that was accepted and one that was refused (it overshoots): the refusal
+/// leaves no trace, so the advertised n still fits and is consumed by one write.
+fn check_sized_after_refused_report(n: usize, st: &mut Stats) -> Result<(), String> {
+    let total: u64 = 1 << 40;
+    let mut s = Sender::new(Api::Flow, Kind::Sized(total))?;
+    let reported = n % 1000;
+    if let Some(r) = s.direct(reported) {
+        r.map_err(|e| format!("consume_direct_write({}) of {} refused: {:?}", reported, total, e))?;
+    }
+    if let Some(r) = s.direct(usize::MAX) {
+        if r.is_ok() {
+            return Err(format!("an overshooting direct-write report was accepted ({} declared)", total));
+        }
+    }
+    let m = s.max_input(n).unwrap();
+    st.evals(1);
+    if m != n {
+        return Err(format!("length-delimited body after a refused direct-write report: calculate_max_input({}) = {}", n, m));
+    }
+    if n > 0 {
+        let input = &pattern()[..n];
+        let (c, p) = with_out(n, |out| s.write(input, out)).map_err(|e| format!("after a refused direct-write report the advertised write({}, out = {}) failed: {:?}", n, n, e))?;
+        if c != n || p != n {
+            return Err(format!("after a refused direct-write report: write of the advertised {} bytes moved ({}, {})", n, c, p));
+        }
+    }
+    st.class("sized_after_refused_report");
     Ok(())
 }
 
@@ -219,19 +250,22 @@ fn exec_enum(t: &mut Tape, st: &mut Stats) -> Result<(), String> {
     if k == 3 {
         // caller-supplied framing in unusual but legal shapes: coding name in another case, Content-Length next to chunked
         // (chunked wins and the declared length is no limit), codings on two lines
-        return check_one(kind_of(5 + n % 11), n, st);
+        return check_one(kind_of(5 + n % 12), n, st);
     }
     if k == 2 {
         // every n also against a small declared length, fresh and after some of it was sent; and over HTTP/1.0
         check_sized_small(1000, 0, n, st)?;
         check_sized_small(1000, 300 + n % 700, n, st)?;
+        if n <= 4_000 {
+            check_sized_after_refused_report(n, st)?;
+        }
         return check_one(Kind::DefaultChunkedHttp10, n, st);
     }
     check_one(kind_of(k), n, st)
 }
 
 fn exec_random(t: &mut Tape, st: &mut Stats) -> Result<(), String> {
-    let k = t.below(16);
+    let k = t.below(17);
     // 0 => just above the enumerated range; otherwise up to 2^22 with a bias to boundaries
     let n = match t.weighted(&[2, 3, 3]) {
         0 => ENUM_MAX as usize + 1 + t.below(4096),
